@@ -9,7 +9,7 @@ from ..core.report import AnalysisError
 from ..frontend.pyfront import Repo
 
 LEVEL = 'other'
-TECHNIQUE = 'abstract interpretation of calculate_terms / collapse_modes over the extracted eccentricity and inclination tables (loops unrolled over all modes); per-term and summed identities decided by polynomial identity testing; registry wiring by resolved callee identity'
+TECHNIQUE = 'abstract interpretation of calculate_terms / collapse_modes over the extracted eccentricity and inclination tables (loops unrolled over all modes); per-term and summed identities decided by polynomial identity testing; registry wiring by resolved callee identity; sign analysis of the tables by exact root isolation; entry-point argument flow; in-place-argument lint'
 LEVEL_TEXT = ('The mode summation is interpreted symbolically for whole (truncation, l_max, obliquity on/off) configurations, every (l,m,p,q) term is captured, and the '
               'heating/torque relations, the frequency-signature grouping, the synchronous-circular zero and the classical 21/2 limit are decided as exact identities in '
               'n, spin, e, I, a, R and per-frequency complex compliances.')
@@ -17,7 +17,7 @@ LEVEL_NOTE = ('Trusted: front-end, interpreter, algebra without rounding; |w| an
               'in the thorough tier, the range itself by exact root isolation (recorded in the evidence); the total can stay positive beyond it. Quick tier covers 4 configurations, thorough 20+.')
 EXPLANATION = ('R10.1 per-term formulas and heating == n dUdM - spin dUdO per term; R10.2 stored sums == sum of captured terms, collapse applies the same -Im k and susceptibility to all '
                'channels so heating == host_mass (n dUdM - spin dUdO) overall; R10.3 every term grouped under a frequency signature has exactly that frequency, skipped terms have zero '
-               'frequency; R10.4 synchronous circular zero-obliquity gives zero for all four outputs; R10.5 classical limit 7 e^2 n * susceptibility * (-Im k2); R10.6 registry wiring; R10.7 no in-place update of arguments; R10.8 every truncation has a range where all G^2 >= 0 (hence heating >= 0 for passive rheologies).')
+               'frequency; R10.4 synchronous circular zero-obliquity gives zero for all four outputs; R10.5 classical limit 7 e^2 n * susceptibility * (-Im k2); R10.6 registry wiring; R10.7 no in-place update of arguments; R10.8 every truncation has a range where all G^2 >= 0 (hence heating >= 0 for passive rheologies) and the first sign change of the spin rate lies at a tabulated resonance; R10.9 the public entry point hands the tables of the requested truncation and degree to the summation.')
 
 
 def run(chk):
